@@ -70,6 +70,32 @@ def get_dimensionality(xdata):
     return xdata.dimensionality
 
 
+def convert_units(xdata, units):
+    """
+    Convert quantified data to compatible units.
+
+    Integer and boolean arrays are converted as floating point numbers.
+    Pint would scale them within their own integer type,
+    which silently wraps around for larger factors.
+
+    Parameters
+    ----------
+    xdata : pint.Quantity
+        The given data array.
+    units : pint.Unit
+        Desired units.
+
+    Returns
+    -------
+    pint.Quantity
+        The converted data.
+    """
+    magn = xdata.magnitude
+    if isinstance(magn, np.ndarray) and magn.dtype.kind in "iub":
+        xdata = UNITS.Quantity(magn.astype(float), xdata.units)
+    return xdata.to(units)
+
+
 def to_units(xdata, units, check_equivalent=False, report_conversion=False):
     """
     Convert data to given units.
@@ -104,7 +130,7 @@ def to_units(xdata, units, check_equivalent=False, report_conversion=False):
         if check_equivalent and equivalent_units(units, units2):
             xdata = UNITS.Quantity(xdata.magnitude, units)
         else:
-            xdata = xdata.to(units)
+            xdata = convert_units(xdata, units)
             conversion = units2, units
 
     if report_conversion:
